@@ -85,10 +85,11 @@ fn is_read(kind: Kind_) -> bool {
 }
 
 fn viol(rep: &mut Report, seed: u64, index: u64, prop: &str, sig: String, detail: String, trace: &[String]) {
-    rep.violation(ViolationOut { prop: prop.into(), sig, detail, scenario: "realmix".into(), seed, index, trace: trace.to_vec() });
+    let scenario = if sig.ends_with(":kernel-thread") { "realmixsq" } else { "realmix" };
+    rep.violation(ViolationOut { prop: prop.into(), sig, detail, scenario: scenario.into(), seed, index, trace: trace.to_vec() });
 }
 
-fn run_case(seed: u64, index: u64, rep: &mut Report) {
+fn run_case(seed: u64, index: u64, rep: &mut Report, kernel_thread: bool) {
     let mut rng = Rng::derive(seed, 0x4EA1, index);
     crate::simk::uninstall();
     let mut trace: Vec<String> = Vec::new();
@@ -97,12 +98,12 @@ fn run_case(seed: u64, index: u64, rep: &mut Report) {
     alloc::start_tracking();
     let sq_size = *rng.pick(&[2u32, 4, 16, 64]);
     let direct_n: u32 = if rng.chance(1, 2) { 8 } else { 0 };
-    // Experiments: REALMIX_SQPOLL=1 puts every history on a kernel-thread ring.
-    let kernel_thread = index % 5 == 3 || std::env::var("REALMIX_SQPOLL").is_ok();
     let ring = alloc::a10(|| {
         let cfg = Ring::config().with_submission_queue_size(sq_size);
         let cfg = if direct_n > 0 { cfg.with_direct_descriptors(direct_n) } else { cfg };
-        // Every fifth history runs on a ring with a (real) kernel submission thread.
+        // Scenario realmixsq: rings with a (real) kernel submission thread. They are kept in a
+        // process of their own: what such a ring leaves behind (known finding D14) is cleaned up by
+        // its kernel thread at some later time and would disturb the descriptor count of later histories.
         let cfg = if kernel_thread { cfg.with_kernel_thread() } else { cfg };
         cfg.build()
     });
@@ -421,7 +422,8 @@ fn run_case(seed: u64, index: u64, rep: &mut Report) {
     }
     // Direct descriptor slots are conserved: with every direct descriptor of the history
     // dropped, the whole table can be allocated again.
-    if direct_n > 0 && !fd_watchdog {
+    // (Not on kernel-thread rings: when that thread gets round to the queued closes is its business.)
+    if direct_n > 0 && !fd_watchdog && !kernel_thread {
         kept_fds.retain(|f| f.kind() != a10::fd::Kind::Direct || {
             false
         });
@@ -581,9 +583,9 @@ fn run_case(seed: u64, index: u64, rep: &mut Report) {
     }
 }
 
-pub fn run(seed: u64, start: u64, iters: u64, rep: &mut Report) {
+pub fn run(seed: u64, start: u64, iters: u64, rep: &mut Report, kernel_thread: bool) {
     for index in start..start + iters {
-        super::guarded(rep, "realmix", "C01", seed, index, |rep| run_case(seed, index, rep));
+        super::guarded(rep, if kernel_thread { "realmixsq" } else { "realmix" }, "C01", seed, index, |rep| run_case(seed, index, rep, kernel_thread));
     }
     // Later scenarios of this process (none today) would want the simulated kernel back.
     crate::simk::install();
